@@ -11,15 +11,39 @@ LEAN_IMPORTS = ["WM.Props.C14Page", "WM.Props.C14", "WM.Props.C14Results"]
 THEOREMS = ["WM.C14.page_fields", "WM.C14.page_tiling", "WM.C14.sorted", "WM.C14.kdLe_iff", "WM.C14.filter_mask",
             "WM.C14.filter_commutes_ranking", "WM.C14.filter_commutes_sorting", "WM.C14.facets_partition",
             "WM.C14.facets_count", "WM.C14.collapse", "WM.C14.rank_iso", "WM.C14.rank_missing",
-            "WM.C14.len_sorted", "WM.C14.len_top", "WM.C14.extend_spec", "WM.C14.filter_spec", "WM.C14.upgrade_spec"]
-PARTIAL = {}
+            "WM.C14.len_sorted", "WM.C14.len_top", "WM.C14.extend_spec", "WM.C14.filter_spec", "WM.C14.upgrade_spec",
+            "WM.C14.sorted_reverse_ties", "WM.C14.facets_ordered", "WM.C14.facets_best", "WM.C14.page_slice",
+            "WM.C14.upgrade_and_extend_spec"]
+PARTIAL = {
+    "WM.C14.len_top":
+        "only the branch may_have_dropped = false has content (TopCollector.total counted every match); in the "
+        "other branch count() falls back to docs_for_query(), which the model takes as given (nAll); len() of a "
+        "limited *collapsed* search (recount through the wrappers, fix 17d200b) is checked differentially only",
+    "WM.C14.rank_missing":
+        "needs terms.length <= doc_count + 1: a multi-valued field with more distinct terms than documents is "
+        "excluded (there the marker doc_count+1 collides with a term rank)",
+    "WM.C14.sorted":
+        "search(reverse=True) reverses the whole list, ties included (WM.C14.sorted_reverse_ties): the property's "
+        "'document order on ties' holds for per-key reversal (FieldFacet(reverse=True)) only; recorded finding "
+        "sortedby+reverse=True:ties-in-descending-document-order",
+    "WM.C14.filter_commutes_ranking":
+        "a fact about the specification order (filtering commutes with ranking/sorting); together with "
+        "filter_mask, sorted and C05.with_wrappers_partial it gives the filtered views, but no C14 theorem composes "
+        "them, and turning a filter given as a query or a Results object into an id set is checked end to end only",
+    "WM.C14.collapse":
+        "the collector stack FilterCollector(CollapseCollector(TopCollector)) with a limit is covered "
+        "differentially only (C05.with_wrappers_full is open / refuted for collapse_order)",
+}
 RULE = ("collector stream: the real Sorting/Unlimited/Top/Filter/Facet/Collapse collectors over abstract segments "
         "with key tables (ties, missing keys, 0 keys) vs the Lean model; non-trivial = at least two documents tie on "
         "the key, or a document is filtered/collapsed. page stream: exhaustive total<=40 x pagelen<=12 x pagenum<=8. "
         "end-to-end stream: real multi-segment indexes with missing values and segments lacking the column; "
         "non-trivial = the view changed the plain result (reordered, removed or grouped something)")
 ASSUMPTIONS = ["sort keys are modelled as tuples of numbers; keys of mixed Python types (None vs str) are not modelled",
-               "list.sort is a stable sort; bisect.insort inserts after equal elements"]
+               "list.sort is a stable sort; bisect.insort inserts after equal elements",
+               "ColumnCategorizer, ReversedColumnCategorizer and multi-key direction mixing are modelled at the key "
+               "level only (the key a categorizer returns); how columns produce keys belongs to C08/C13",
+               "a collapse key None / '' / b'' means 'no key'; every other value, 0 included, is a key"]
 TRUSTED = ["the table-driven facets of harness/props/c14.py (public FacetType/Categorizer extension API)"]
 MANIFEST = {
     "level_text": "Lean theorems for the key-level model of whoosh.collectors / ResultsPage / PostingCategorizer; the "
@@ -96,7 +120,7 @@ def _stream_collectors(ctx):
     from whoosh import collectors, sorting
     TableFacet = _facet_classes()
     rng = ctx.rng("collectors")
-    n = ctx.budget(700, 30000)
+    n = ctx.budget(5000, 30000)
     lines, checks = [], []
 
     def ask(line, fn):
@@ -202,7 +226,7 @@ def _stream_collectors(ctx):
             impl = (sorted(d for _, d in r.top_n), sorted((int(k), v) for k, v in r.collapsed_counts.items() if v),
                     len(r), sorted(r.docs()))
             line = "c14 collapse %d (%s)" % (climit, " ".join(
-                "(%d %s %s)" % (d, "none" if not ckeys[d] else ckeys[d], _key_sexp(skey[d])) for d in docs))
+                "(%d %s %s)" % (d, "none" if ckeys[d] is None else ckeys[d], _key_sexp(skey[d])) for d in docs))
 
             def chk(reply, impl=impl, line=line):
                 p = parse_sexp(reply)
@@ -249,7 +273,7 @@ def _stream_collectors(ctx):
                 impl = ("err", "IndexError")
             co = "none"
             if coll:
-                co = "(%d (%s) %s)" % (coll[0], " ".join("(%d %s)" % (d, "none" if not coll[1][d] else coll[1][d])
+                co = "(%d (%s) %s)" % (coll[0], " ".join("(%d %s)" % (d, "none" if coll[1][d] is None else coll[1][d])
                                                            for d in docs),
                                        "none" if coll[2] is None else "(" + " ".join(
                                            "(%d %s)" % (d, _key_sexp(coll[2][d])) for d in docs) + ")")
@@ -645,18 +669,27 @@ def _views_run(corpus, seedstr):
                             fobj = s.search(query.Term("t", "zz"), limit=None)
                         else:
                             fobj = set(fdocs)
-                        limit = rng.choice([None, None, 2, 3])
+                        limit = rng.choice([None, None, 1, 2, 3])
                         sortf = rng.choice([None, None, "nm"])
                         rec.update(field=how + ":" + which, limit=limit, sortf=sortf,
                                    missing=bool(sortf) and any("nm" not in d for d in m))
-                        kw = {"limit": limit, "optimize": False}
+                        kw = {"limit": limit, "optimize": rng.random() < 0.5}
                         allow = restrict = None
                         if which in ("filter", "both"):
                             kw["filter"] = fobj
                             allow = fdocs
-                        if which in ("mask", "both"):
+                        if which == "mask":
                             kw["mask"] = fobj
                             restrict = fdocs
+                        if which == "both":
+                            # an independent mask: some documents the filter lets through are masked out
+                            if rng.random() < 0.3:
+                                restrict = [d["id"] for d in _matched(corpus, ["term", "ba"])]
+                                kw["mask"] = query.Term("t", "ba")
+                            else:
+                                restrict = sorted(rng.sample(range(len(corpus["docs"])),
+                                                             rng.randint(0, max(1, len(corpus["docs"]) // 2))))
+                                kw["mask"] = set(restrict)
                         if sortf:
                             kw["sortedby"] = sortf
                         r = s.search(q, **kw)
@@ -674,13 +707,22 @@ def _views_run(corpus, seedstr):
                         sortf = rng.choice([None, "nm"])
                         rec.update(field="page", pagelen=pagelen, pagenum=pagenum, sortf=sortf,
                                    missing=bool(sortf) and any("nm" not in d for d in m))
-                        kw = {"sortedby": sortf} if sortf else {"optimize": False}
+                        kw = {"sortedby": sortf} if sortf else {"optimize": rng.random() < 0.5}
+                        pmids = mids
+                        if rng.random() < 0.4:
+                            # a filtered and masked page: total / pagecount count what passes both
+                            pallow = sorted(rng.sample(range(len(corpus["docs"])),
+                                                       rng.randint(len(corpus["docs"]) // 2, len(corpus["docs"]))))
+                            prestrict = sorted(rng.sample(range(len(corpus["docs"])), rng.randint(0, len(corpus["docs"]) // 3)))
+                            kw["filter"], kw["mask"] = set(pallow), set(prestrict)
+                            pmids = [i for i in mids if i in kw["filter"] and i not in kw["mask"]]
+                            rec["field"] = "page+filter+mask"
                         pg = s.search_page(q, pagenum, pagelen=pagelen, **kw)
                         rec["observed"] = ("ok %d %d %d %d %d" % (pg.total, pg.pagecount, pg.pagenum, pg.offset, pg.pagelen),
                                            [h.docnum for h in pg])
-                        rec["line"] = "c14 page %d %d %d" % (len(mids), pagenum, pagelen)
+                        rec["line"] = "c14 page %d %d %d" % (len(pmids), pagenum, pagelen)
                         rec["final_keys"] = {i: ([_rank_of("nm", byid[i])] if sortf else [G.rat(0 - _score(byid[i], qd))])
-                                             for i in mids}
+                                             for i in pmids}
                     else:
                         limit = rng.choice([1, 2, 3, 5, None])
                         opt = rng.random() < 0.7 and not corpus["dels"]
@@ -765,7 +807,7 @@ def _sort_signature(rec):
 
 
 def _stream_views(ctx):
-    ncorp = ctx.budget(150, 8000)
+    ncorp = ctx.budget(2000, 8000)
     args = ["%s:%d:%d:views" % (ctx.pid, ctx.seed, i) for i in range(ncorp)]
     recs = [r for rs in ctx.pmap(_views_worker, args, chunksize=4) for r in rs]
     infra = [r for r in recs if r["kind"] == "infra"]
@@ -803,6 +845,17 @@ def _stream_views(ctx):
         r["stack"] = [int(d) for d, _ in p[1]] if p[0] == "ok" else None
     for r in recs:
         _judge_view(ctx, r, replies.get(r.get("line")), replies)
+
+
+def _strict_reverse_order(line):
+    """Key descending, document number ASCENDING on equal keys, first `limit`: the strict reading of
+    'reversed, document order on ties' for a `c14 sort limit 1 ((doc (key...)) ...)` line."""
+    p = parse_sexp(line)
+    limit = None if p[2] == "none" else int(p[2])
+    items = sorted((int(d), [Fraction(x) for x in k]) for d, k in p[4])
+    items.sort(key=lambda it: it[1], reverse=True)       # stable: ties keep ascending document order
+    docs = [d for d, _ in items]
+    return docs[:limit] if limit else docs
 
 
 def _final_sort_line(r, docs, limit):
@@ -853,6 +906,12 @@ def _verdicts(r, reply):
             else:
                 sig = "sortedby(%s)!=spec-order [%s]" % (_field_class(r["field"]), _sort_signature(r))
             ctx.violation(sig, case, want, got, "sorted results are not in (key, docnum) order")
+        elif r.get("rev"):
+            # the model (WM.C14.sorted) reverses the whole list; the property says "document order on ties"
+            strict = _strict_reverse_order(r["line"])
+            if strict != got:
+                ctx.violation("sortedby+reverse=True:ties-in-descending-document-order", case, strict, got,
+                              "search(reverse=True) returns documents with equal sort keys in descending document order")
         if r["len"] != r["nmatched"]:
             ctx.violation("len(results)!=matched [sortedby]", case, r["nmatched"], r["len"])
     elif kind in ("group", "overlap", "queryfacet", "rangefacet"):
@@ -976,7 +1035,7 @@ def _stream_results_ops(ctx):
     collectors over abstract segments) vs the Lean model."""
     from whoosh import collectors
     rng = ctx.rng("results-ops")
-    n = ctx.budget(300, 15000)
+    n = ctx.budget(3000, 15000)
     lines, checks = [], []
 
     def mk(segs, limit):
@@ -1037,7 +1096,7 @@ def _stream_categorizers(ctx):
     from whoosh import fields, sorting, analysis
     from whoosh.filedb.filestore import RamStorage
     rng = ctx.rng("categorizers")
-    n = ctx.budget(40, 2000)
+    n = ctx.budget(300, 2000)
     lines, checks = [], []
     with ctx.scratch() as base:
         G.set_base_tmp(base)
